@@ -1053,3 +1053,12 @@ V("c03-bool-index-flattened-answers-false", "C03", "R03.12", "dask_array/slicing
   "class BooleanIndexFlattened(ArrayExpr):", "class BooleanIndexFlattened(ArrayExpr):\n    def _requires_grid_preservation(self, dependency):\n        return False\n", expect="BooleanIndexFlattened")
 V("c03-twin-default-grid-answer-isnan", "C03", "-", "dask_array/_expr.py",
   "            return any(c != c for dim in self.chunks for c in dim)\n", "            return any(math.isnan(c) for dim in self.chunks for c in dim)\n", twin=True)
+
+# -- R03.13: nodes built under a precondition on their input's grid ---------------------------------------------------
+V("c03-sliding-window-reduction-not-grid-sensitive", "C03", "R03.13", "dask_array/reductions/_sliding_window.py",
+  "    def _requires_grid_preservation(self, dependency):\n        # built under a precondition on the input's block grid\n        return True\n\n    def _layer(self):\n        x = self.array\n        axis = self.sliding_axis\n\n        total_name", "    def _layer(self):\n        x = self.array\n        axis = self.sliding_axis\n\n        total_name", expect="SlidingWindowReduction")
+V("c03-take-one-chunk-not-grid-sensitive", "C03", "R03.13", "dask_array/slicing/_basic.py",
+  "    def _requires_grid_preservation(self, dependency):\n        # built under a precondition on the input's block grid\n        return True\n\n", "", expect="TakeUnknownOneChunk")
+V("c03-new-node-built-under-grid-condition", "C03", "R03.13", "dask_array/routines/_unique.py", None, None, expect="UniqueAggregate", edits=[
+  ("dask_array/routines/_unique.py", "def unique(ar, return_index=False", "def _unique_one_block(x):\n    if len(x.expr.chunks[0]) == 1:\n        return UniqueAggregate(x.expr, False, None)\n    return None\n\n\ndef unique(ar, return_index=False"),
+])
